@@ -25,6 +25,7 @@ def run(chk):
         chk.fail("proof", "harness-build", {}, out[-1500:])
         return
     compilers.name_lookup_correspondence(chk, rng, 400 if quick else 6000)
+    compilers.core_correspondence(chk, rng, 250 if quick else 6000, dialects=("cl21", "strict21"))
     n = 80 if quick else 3000
     for d in progen.MODERN:
         progs = compilers.gen_programs(rng, d, n, nargs=3)
